@@ -4,7 +4,7 @@ C18 — line-protocol driver of the reference semantics (core only), values are 
   samples <id> <series>…                      →  ok <series> <points>
         series = `l=v,l=v@t:tok,t:tok,…`; value token: `S` staleness marker, `N` NaN, `0`,
         else the IEEE-754 bit pattern in decimal
-  ref|og <id> <start> <end> <step> <expr…> vals <tok,tok,…|->
+  ref|og <id> <start> <end> <step> <lb|D> <expr…> vals <tok,tok,…|->   (D = the default look-back)
         →  `err <class>` | `m <n> {labels} t t … ; … ` followed by `= <values>` when the
            expression is exact on the sample set (values compared bit for bit), else `~` when
            every value given on the op line is within the tolerance of the model's value
@@ -16,6 +16,7 @@ expr (prefix): `num tok` | `sel n (l:name kind (v:lit | rx…))* off` | `rfn fn 
   rx: `lit:s` | `any` | `star r` | `plus r` | `opt r` | `alt a b` | `cat a b`.
 -/
 import OG.C18.Model
+import OG.Generated.C18
 
 namespace OG.C18
 
@@ -35,7 +36,10 @@ instance : Val Float where
 
 namespace Drv
 
-def lookbackMs : Int := 300000
+/-- the server's default look-back, regenerated from promql2influxql/constant.go. -/
+def lookbackMs : Int := OG.Gen.C18.lookbackMs
+
+def parseLb (s : String) : Option Int := if s == "D" then some lookbackMs else s.toInt?
 
 def valTok (f : Float) : String :=
   if f.isNaN then "N" else if f == 0 then "0" else toString f.toBits.toNat
@@ -247,12 +251,12 @@ def isSmallInt (f : Float) : Bool := f == f.floor && f.abs ≤ 1e9
 
 def answerQuery (st : St) (toks : List String) : String :=
   match toks with
-  | id :: start :: stop :: step :: rest =>
-    match id.toNat?, start.toInt?, stop.toInt?, step.toInt?, parseExpr rest with
-    | some id, some start, some stop, some step, some (e, ["vals", given]) =>
+  | id :: start :: stop :: step :: lb :: rest =>
+    match id.toNat?, start.toInt?, stop.toInt?, step.toInt?, parseLb lb, parseExpr rest with
+    | some id, some start, some stop, some step, some lb, some (e, ["vals", given]) =>
       match st.dbs.find? (fun d => d.1 == id), parseGiven given with
       | some (_, db, allInt), some given =>
-        match evalRange db lookbackMs start stop step e with
+        match evalRange db lb start stop step e with
         | .error err => "err " ++ err.text
         | .ok xs =>
           match assemble xs with
@@ -264,7 +268,7 @@ def answerQuery (st : St) (toks : List String) : String :=
             else if allClose vs given then structureText m ++ " ~"
             else structureText m ++ " ! " ++ valuesText vs
       | _, _ => "bad-op"
-    | _, _, _, _, _ => "bad-op"
+    | _, _, _, _, _, _ => "bad-op"
   | _ => "bad-op"
 
 def step (st : St) (line : String) : St × String :=
